@@ -143,6 +143,9 @@ def verify_function(program, registry, spec, opts=None, work=None, expand_to=Non
         if expand_to is not None and len(work) >= expand_to:
             res.pending = work
             break
+        if opts.get("budget_paths") and seen >= opts["budget_paths"]:
+            res.pending = work  # hand the rest back for redistribution
+            break
         decisions = work.pop(0) if expand_to is not None else work.pop()
         seen += 1
         if seen > opts.get("max_paths", MAX_PATHS):
